@@ -1526,6 +1526,26 @@ impl Graph {
         Ok(result)
     }
 
+    /// Verification hook (only with `--cfg rten_verif`): execute a caller-supplied plan
+    /// (a sequence of operator node IDs) instead of the one `create_plan` returns, the way
+    /// `Graph::run` executes its own plan. Used to check that results do not depend on
+    /// the order of a valid plan.
+    #[cfg(rten_verif)]
+    #[doc(hidden)]
+    pub fn verif_run_with_plan(
+        &self,
+        inputs: Vec<(NodeId, ValueOrView)>,
+        plan: &[NodeId],
+        outputs: &[NodeId],
+        opts: Option<RunOptions>,
+    ) -> Result<Vec<Value>, RunError> {
+        let opts = opts.unwrap_or_default();
+        opts.thread_pool().run(|| {
+            let pool = BufferPool::new();
+            self.run_plan(inputs, plan, outputs, None, &pool, None, None, &opts)
+        })
+    }
+
     /// Print detailed information about an operation just after it has run.
     fn print_op_timing(
         &self,
